@@ -9,6 +9,7 @@ typedef struct {
   int      ntx_udp, ntx_tcp;
   int      n_edns_downgrade_justified; /* a FORMERR reply was sent to it while it carried OPT */
   int      n_tc_justified;             /* a TC reply was sent to a UDP transmission */
+  int      last_txidx1;                /* index + 1 of its latest transmission (0 none) */
   int      n_badcookie_justified;
   int      saw_opt_then_noopt;
   int      last_had_opt;
@@ -129,6 +130,11 @@ static void mon_net_tx(sim_tx_t *tx, const sdns_query_t *q, const uint8_t *msg, 
     nq->saw_opt_then_noopt++;
   }
   nq->last_had_opt = tx->has_opt;
+  if (nq->last_txidx1 > 0 && sim_tx[nq->last_txidx1 - 1].garbage_says_tc && !sim_tx[nq->last_txidx1 - 1].tcp) {
+    /* (what the server made of the previous transmission is only known after that transmission was accounted for) */
+    nq->n_tc_justified = 1;
+  }
+  nq->last_txidx1 = (int)(tx - sim_tx) + 1;
   MON_EVAL("net_budget");
   if (net_unique_names) {
     bound = nq->max_servers * app_cfg.tries + 1 + 1 + 3;
@@ -157,7 +163,7 @@ static void mon_net_tx(sim_tx_t *tx, const sdns_query_t *q, const uint8_t *msg, 
       nq->n_edns_downgrade_justified = 1;
     }
   }
-  if (tx->action == SA_TC && !tx->tcp) {
+  if ((tx->action == SA_TC || tx->garbage_says_tc) && !tx->tcp) {
     nq->n_tc_justified = 1;
   }
   if (tx->action == SA_BADCOOKIE) {
